@@ -324,7 +324,17 @@ Inductive outcome (A : Type) :=
 | Done (x : A).
 Arguments Crash {A}. Arguments NoFuel {A}. Arguments Done {A} x.
 
+(* Which of two behaviours the code under test implements (the harness detects it by probing):
+     v_relctx   = false : as found — _change_import_statements looks from-imports up with ImportContext(project, None):
+                          relative from-imports are invisible to it, or raise AttributeError
+                = true  : the import context carries the importing module's folder
+     v_rootfrom = false : as found — _change_import_statements is skipped when the destination is a source root
+                = true  : it always runs; a module that becomes top-level is re-imported with  import b [as x]  *)
+Record variant := { v_relctx : bool; v_rootfrom : bool }.
+Definition as_found : variant := {| v_relctx := false; v_rootfrom := false |}.
+
 Section MoveModule.
+  Variable V : variant.
   Variable w : world.
   Variable src : res.        (* canonical: RPy p b  or  RDir (p ++ [b]) *)
   Variable dest : path.
@@ -341,16 +351,28 @@ Section MoveModule.
     | _ => Crash
     end.
 
+  (* ... or FromImport.get_imported_resource(ImportContext(project, folder of the importing module)) *)
+  Definition imported_resource (folder : path) (level : nat) (modn : dotted) : outcome (option res) :=
+    if v_relctx V then Done (from_module true l folder level modn)
+    else imported_resource_nofolder level modn.
+
+  (* the import that replaces  from pkg import b [as x]  *)
+  Definition moved_from_import (al : option N) : istmt :=
+    match destname with
+    | [] => INormal [([b], al)]
+    | _ => IFrom 0 destname [(b, al)]
+    end.
+
   Definition res_opt_is (o : option res) (r : res) : bool :=
     match o with Some x => res_eqb x r | None => false end.
 
   (* one iteration of the loop of _change_import_statements on statement number i *)
-  Definition change_stmt (imps : list istmt) (i : nat) : outcome (list istmt) :=
+  Definition change_stmt (folder : path) (imps : list istmt) (i : nat) : outcome (list istmt) :=
     match nth_error imps i with
     | Some (IFrom level modn names) =>
         if negb (existsb (fun na : N * option N => N.eqb (fst na) b) names) then Done imps
         else
-          match imported_resource_nofolder level modn with
+          match imported_resource folder level modn with
           | Crash => Crash
           | NoFuel => NoFuel
           | Done ir =>
@@ -361,7 +383,7 @@ Section MoveModule.
                   let imps_added :=
                     fold_left (fun acc (na : N * option N) =>
                                  if N.eqb (fst na) b
-                                 then add_import acc (IFrom 0 destname [(b, snd na)])
+                                 then add_import acc (moved_from_import (snd na))
                                  else acc) names imps in
                   let kept := filter (fun na : N * option N => negb (N.eqb (fst na) b)) names in
                   let st := match kept with [] => IEmpty | _ => IFrom level modn kept end in
@@ -381,19 +403,19 @@ Section MoveModule.
     end.
 
   (* for import_stmt in module_imports.imports — the list may grow while it is iterated *)
-  Fixpoint change_loop (fuel : nat) (imps : list istmt) (i : nat) : outcome (list istmt) :=
+  Fixpoint change_loop (folder : path) (fuel : nat) (imps : list istmt) (i : nat) : outcome (list istmt) :=
     match fuel with
     | O => NoFuel
     | S k =>
         if Nat.leb (length imps) i then Done imps
-        else match change_stmt imps i with
-             | Done imps' => change_loop k imps' (S i)
+        else match change_stmt folder imps i with
+             | Done imps' => change_loop folder k imps' (S i)
              | o => o
              end
     end.
 
-  Definition change_import_statements (imps : list istmt) : outcome (list istmt) :=
-    change_loop (2 * length imps + 2) imps 0.
+  Definition change_import_statements (folder : path) (imps : list istmt) : outcome (list istmt) :=
+    change_loop folder (2 * length imps + 2) imps 0.
 
   (* position (1-based) of the word b in a dotted primary whose prefix up to it means the moving module *)
   Fixpoint occ_scan (ev : dotted -> bool) (pre : dotted) (d : dotted) : option nat :=
@@ -516,8 +538,9 @@ Section MoveModule.
     if negb (occurs_in_module true m (m_imports m) (m_refs m)) then Done m
     else
       match (match destname with
-             | [] => Done (m_imports m)
-             | _ => change_import_statements (m_imports m)
+             | [] => if v_rootfrom V then change_import_statements (m_folder m) (m_imports m)
+                     else Done (m_imports m)
+             | _ => change_import_statements (m_folder m) (m_imports m)
              end) with
       | Crash => Crash
       | NoFuel => NoFuel
@@ -582,13 +605,13 @@ Definition relatives_to_absolutes (w : world) (m : pymod) : pymod :=
      m_refs := map (apply_renames (rta_renames l (m_folder m) (m_imports m))) (m_refs m) |}.
 
 (* MoveModule._change_moving_module (the moving module is a file) *)
-Definition change_moving_module (w : world) (src : res) (dest : path) (m : pymod) : outcome pymod :=
-  change_occurrences w src dest (relatives_to_absolutes w m).
+Definition change_moving_module (V : variant) (w : world) (src : res) (dest : path) (m : pymod) : outcome pymod :=
+  change_occurrences V w src dest (relatives_to_absolutes w m).
 
 (* what MoveModule does to module m of the project (before the file itself is moved) *)
-Definition move_module_text (w : world) (src : res) (dest : path) (m : pymod) : outcome pymod :=
-  if res_eqb (m_res m) src then change_moving_module w src dest m
-  else change_occurrences w src dest m.
+Definition move_module_text (V : variant) (w : world) (src : res) (dest : path) (m : pymod) : outcome pymod :=
+  if res_eqb (m_res m) src then change_moving_module V w src dest m
+  else change_occurrences V w src dest m.
 
 (* ---------------------------------------------------------------- Rename of a module / package *)
 
